@@ -1,16 +1,19 @@
 #!/bin/bash
-# tools/seedrun.sh <seeded-id> <Cxx> [<Cyy>...] : apply a seeded change to /repo, run the given checks (quick), revert.
-# prints one line per check: <seeded-id> <Cxx> exit=<n> <VIOLATION line or last line>
-id=$1; shift
-cd /verif
-if ! git -C /repo diff --quiet; then echo "/repo is dirty, refusing"; exit 2; fi
-if ! git -C /repo apply --check /verif/seeded/$id/patch.diff 2>/dev/null; then echo "$id patch does not apply"; exit 2; fi
-git -C /repo apply /verif/seeded/$id/patch.diff
+# tools/seedrun.sh <patch-dir-under-/verif> <Cxx> [<Cyy>...]
+# Runs the given checks (quick) against a scratch worktree of /repo HEAD with the patch applied, from a scratch COPY of /verif
+# (so neither /repo nor /verif/lean/Generated.lean is disturbed for anybody else), then removes both.
+# prints one line per check: <name> <Cxx> exit=<n> <VIOLATION line or last line>
+dir=$1; shift
+name=$(basename $dir)
+wt=/tmp/lasio-seed-$$; vf=/tmp/verif-seed-$$
+git -C /repo worktree add -q --detach $wt HEAD || exit 2
+if ! git -C $wt apply --check /verif/$dir/patch.diff 2>/dev/null; then echo "$name patch does not apply"; git -C /repo worktree remove --force $wt; exit 2; fi
+git -C $wt apply /verif/$dir/patch.diff
+mkdir -p $vf && rsync -a --exclude .git --exclude replays --exclude .scratch /verif/ $vf/
+cd $vf
 for p in "$@"; do
-  out=$(timeout 1500 ./check $p --tier quick 2>&1); rc=$?
+  out=$(LASIO_REPO=$wt timeout 1500 ./check $p --tier quick 2>&1); rc=$?
   line=$(echo "$out" | grep -m1 '^VIOLATION' || echo "$out" | tail -1)
-  echo "$id $p exit=$rc ${line:0:220}"
+  echo "$name $p exit=$rc ${line:0:200}"
 done
-git -C /repo checkout -- .
-git checkout -q -- evidence 2>/dev/null
-rm -rf replays
+cd /; rm -rf $vf; git -C /repo worktree remove --force $wt
